@@ -40,7 +40,7 @@ type Cfg struct {
 
 // Step is one action of a script.
 type Step struct {
-	Op    string   `json:"op"` // "in", "raw", "burst", "send", "logout", "stop", "advance", "handlerstop", "connclosed"
+	Op    string   `json:"op"` // "in", "raw", "burst", "send", "logout", "stop", "advance", "handlerstop", "connclosed", "counter-fails"
 	Raw   []byte   `json:"raw,omitempty"` // "raw": bytes handed to ServeIncoming as they are
 	In    *InMsg   `json:"in,omitempty"`
 	Burst []*InMsg `json:"burst,omitempty"`
@@ -418,6 +418,9 @@ func runDirect(cfg Cfg, steps []Step, hooks *Hooks, maxHB int, tr *Trace) {
 				stopped = true
 				_ = r.s.Stop()
 			}
+		case "counter-fails":
+			// from now on the counter store refuses to record numbers
+			r.store.SetFailSets(true)
 		case "handlerstop":
 			r.h.Stop()
 		case "connclosed":
